@@ -137,6 +137,7 @@ class Interp:
         self.ghost = {}
         self.call_stack = []
         self.ghost_defs = {}
+        self.comp_counter = {}
 
     # ------------------------------------------------------------------------------------------------------------
     # fresh values
@@ -162,7 +163,7 @@ class Interp:
         if isinstance(ty, tuple):
             k = ty[0]
             if k == 'rec':
-                classes = ty[1] if isinstance(ty[1], list) else [ty[1]]
+                classes = list(ty[1]) if isinstance(ty[1], (list, tuple)) else [ty[1]]
                 o = z3.Const(p.fresh_name(base), TY.Obj)
                 sv = SV('rec', o, cls=classes[0] if len(classes) == 1 else None, extra={'classes': classes})
                 if len(classes) == 1:
